@@ -283,11 +283,17 @@ Definition bytes_from_encoded_str (s : str) : option bytes :=
   match b64_decode false false s with inl l => Some l | inr _ => None end.
 
 (** codec 0: JsonSerdeCodec, 1: FromToStringCodec (Encoded = String: the identity),
-    2: FromToBytesCodec (Encoded = Vec<u8>: the UTF-8 bytes, sent as base64) *)
+    2: FromToBytesCodec (Encoded = Vec<u8>: the UTF-8 bytes, sent as base64),
+    3: MiniserdeCodec and 4: SerdeLite<JsonSerdeCodec> (a String value is written as the same
+    JSON string literal by miniserde and, through serde-lite's Intermediate, by serde_json),
+    6: an identity codec over Vec<u8> (the harness's stand-in for the binary codecs whose output
+    is arbitrary bytes): every code point of the case string modulo 256, sent as base64.
+    5 (RkyvCodec) is not modelled: cases with it are judged by the oracle only. *)
 Definition encode (codec : Z) (s : str) : str :=
   match codec with
-  | 0%Z => json_string s
+  | 0%Z | 3%Z | 4%Z => json_string s
   | 2%Z => bytes_to_encoded_string (flat_map utf8 s)
+  | 6%Z => bytes_to_encoded_string (map (fun c => c mod 256) s)
   | _ => s
   end.
 
@@ -410,6 +416,75 @@ Definition session (isl : bool) (script : list sexp) : st :=
   push_log s (Lst [Num 11%Z; Lst (map (fun i => Lst (map sN (dec i))) (client_ids s))]).
 
 End Esc.
+
+(** * cases that drive leptos components: what they amount to at the level of the context *)
+(** [(15 rmode children)]: a real <ErrorBoundary/> rendered on the server. The component takes an
+    id for itself ([next_id]) before its children are built; children that are resources take
+    theirs when they are built ([(12 ..)]), nested boundaries likewise, depth first; when the view
+    is rendered every [Err] child throws: the hook of the boundary it belongs to takes an id for
+    the error and registers it under the boundary's id ([ErrorBoundaryErrorHook::throw]).
+    [eb_construct] / [eb_render] spell that out with the primitive commands; a boundary's id is
+    referred to as "the k-th id handed out", [n0] being the number handed out before, [nb] the
+    number of boundaries of the tree (their ids come first, in preorder).
+    child: (0 text) Ok | (1 message) Err | (2 kind codec text variant) resource | (3 children) *)
+Fixpoint eb_construct (fuel : nat) (children : list sexp) : list sexp :=
+  match fuel with
+  | O => []
+  | S f =>
+      flat_map (fun c =>
+        match as_Z (nth_s 0 c) with
+        | 2%Z => [Lst [Num 12%Z; nth_s 1 c; nth_s 2 c; nth_s 3 c; nth_s 4 c]]
+        | 3%Z => Lst [Num 0%Z] :: eb_construct f (as_list (nth_s 1 c))
+        | _ => []
+        end) children
+  end.
+
+(** state: boundaries met so far, errors thrown so far, commands *)
+Fixpoint eb_render (fuel : nat) (n0 nb bidx : nat) (children : list sexp)
+  (acc : nat * nat * list sexp) : nat * nat * list sexp :=
+  match fuel with
+  | O => acc
+  | S f =>
+      fold_left (fun (a : nat * nat * list sexp) c =>
+        let '(p, q, out) := a in
+        match as_Z (nth_s 0 c) with
+        | 1%Z =>
+            (p, S q,
+             out ++ [Lst [Num 0%Z];
+                     Lst [Num 3%Z; Lst [Num 1%Z; snat bidx]; Lst [Num 1%Z; snat (n0 + nb + q)]; nth_s 1 c]])
+        | 3%Z => eb_render f n0 nb (n0 + p) (as_list (nth_s 1 c)) (S p, q, out)
+        | _ => a
+        end) children acc
+  end.
+
+Definition is_next_id (c : sexp) : bool := Z.eqb (as_Z (nth_s 0 c)) 0.
+
+Definition expand_cmd (acc : nat * list sexp) (c : sexp) : nat * list sexp :=
+  let '(n0, out) := acc in
+  match as_Z (nth_s 0 c) with
+  | 0%Z => (S n0, out ++ [c])
+  | 15%Z =>
+      let ch := as_list (nth_s 2 c) in
+      let cons := Lst [Num 0%Z] :: eb_construct 8 ch in
+      let nb := length (filter is_next_id cons) in
+      let '(_, ne, rend) := eb_render 8 n0 nb n0 ch (1%nat, 0%nat, []) in
+      (n0 + nb + ne, out ++ cons ++ rend)%nat
+  | _ => (n0, out ++ [c])
+  end.
+(** the script of a case in primitive commands *)
+Definition expand (script : list sexp) : list sexp := snd (fold_left expand_cmd script (0%nat, [])).
+
+(** leptos_integration_utils::build_response: every chunk of pending_data() becomes
+    [format!("<script{nonce}>{chunk}</script>")] (no nonce in the modelled mode) *)
+Definition k_script_open : str := [60; 115; 99; 114; 105; 112; 116; 62].  (* <script> *)
+Definition k_script_close : str := [60; 47; 115; 99; 114; 105; 112; 116; 62].  (* </script> *)
+Definition wrap_chunk (c : str) : str := k_script_open ++ c ++ k_script_close.
+Definition wrap_entry (e : sexp) : sexp :=
+  match e with
+  | Lst [Num 8%Z; Num 0%Z; Lst c] =>
+      Lst [Num 8%Z; Num 0%Z; Lst (map sN k_script_open ++ c ++ map sN k_script_close)]
+  | _ => e
+  end.
 
 (** * the browser side, 1: ECMAScript string literals (ES2019 11.8.4 + Annex B.1.2) *)
 
@@ -570,3 +645,21 @@ Fixpoint contains_ci (p s : str) : bool :=
 Definition has_script_end (s : str) : bool := contains_ci (k_script_end) s.
 Definition has_comment_open (s : str) : bool := contains_ci (k_comment_open) s.
 Definition inert (s : str) : bool := negb (has_script_end s) && negb (has_comment_open s).
+
+(** * the browser side, 3: where a script element ends *)
+(** HTML 13.2.5.4 / 13.2.5.15-17 (script data, less-than sign, end tag open, end tag name): the
+    text of a script element whose content starts at [s] runs up to the first [</script] (ASCII
+    case-insensitive) that is followed by white space, [/] or [>]. That is the whole story as
+    long as no [<!--] comes before it (the escaped states are entered by nothing else). [None]:
+    the element is never closed. *)
+Definition tag_end_char (c : N) : bool :=
+  (c =? 9) || (c =? 10) || (c =? 12) || (c =? 13) || (c =? 32) || (c =? 47) || (c =? 62).
+Fixpoint script_text (s : str) : option str :=
+  match s with
+  | [] => None
+  | c :: rest =>
+      if prefix_ci k_script_end s &&
+         match skipn 8 s with d :: _ => tag_end_char d | [] => false end
+      then Some []
+      else option_map (cons c) (script_text rest)
+  end.
